@@ -334,6 +334,76 @@ def alias_cases():
             yield {'k': 'model', 'spec': spec, 'ins': [ins], 'outs': o, 'args': args, 'path': path, 'edit': None, 'whatif': True, 'whatif_ovs': []}
 
 
+def constname_cases():
+    """Fixed shapes (added after seeds c07-a-r5 / c08-b-r5): a constant defined name (RATE), a name defined as that name
+    (PCT = RATE), cells reading either, and a formula cell that depends on constant names only, lying inside a range that
+    is supplied directly (through a name it is the listed finding F38: the cell's own formula wins the race).  `mode` 'compile' compares the compiled function, 'calc' a calculation."""
+    rate = ['fname', 0, ['num', 0.25]]
+    pct = ['fname', 1, rate]
+    cells = [{'at': [0, 0, 1, 1], 'v': 100.0}, {'at': [0, 0, 2, 1], 'v': 250.0},
+             {'at': [0, 0, 1, 2], 'f': ['bin', '*', ['ref', [0, 0, 1, 1]], rate]},
+             {'at': [0, 0, 2, 2], 'f': ['bin', '+', ['bin', '*', ['fn', 'SUM', ['rng', [0, 0, 1, 1, 2, 1]]], rate], ['num', 1.0]]},
+             {'at': [0, 0, 3, 2], 'f': ['bin', '*', ['ref', [0, 0, 1, 1]], pct]},
+             {'at': [0, 0, 4, 2], 'f': ['bin', '*', rate, ['num', 100.0]]},
+             {'at': [0, 0, 5, 2], 'v': 7.0},
+             {'at': [0, 0, 4, 3], 'f': ['bin', '+', ['ref', [0, 0, 4, 2]], ['num', 1.0]]},
+             {'at': [0, 0, 5, 3], 'f': ['fn', 'SUM', ['rng', [0, 0, 4, 2, 5, 2]]]}]
+    spec = {'books': [{'name': 'b0.xlsx', 'sheets': ['S1']}], 'cells': cells, 'names': [{'name': 'TOTAL_IN', 'rect': [0, 0, 4, 2, 5, 2]}],
+            'fnames': [{'name': G.FNAME_POOL[0], 'f': rate[2], 'book': 0, 'raw': True}, {'name': G.FNAME_POOL[1], 'f': rate, 'book': 0}]}
+    bs = [[0, 0, r, 2] for r in (1, 2, 3, 4)]
+    cs = [[0, 0, 4, 3], [0, 0, 5, 3]]
+    plans = [('alias-of-constant', [['fname', 1]], bs, [[0.5], [2.0], [0.0], [0.5]]),
+             ('constant', [['fname', 0]], bs, [[0.5], [3.0]]),
+             ('both', [['fname', 1], ['fname', 0]], bs, [[0.5, 3.0], [1.0, 1.0]]),
+             ('repeated-output', [['fname', 0]], [bs[0], bs[1], bs[0]], [[0.5], [3.0]]),
+             ('same-output-twice', [['cell', [0, 0, 1, 1]]], [bs[0], bs[0]], [[4.0], [-1.0]]),
+             ('range-over-constant-formula', [['rect', [0, 0, 4, 2, 5, 2]]], cs, [[[[11.0], [12.0]]], [[[0.0], [-1.0]]]]),
+             ('alias+range', [['fname', 1], ['rect', [0, 0, 4, 2, 5, 2]]], bs[:3] + cs, [[0.5, [[11.0], [12.0]]], [2.0, [[1.0], [2.0]]]])]
+    for path in ('dict', 'file'):
+        for mode in ('compile', 'calc', 'calc-outputs'):
+            for pname, ins, outs, args in plans:
+                yield {'k': 'constname', 'spec': spec, 'plan': pname, 'ins': ins, 'outs': outs, 'args': args, 'path': path, 'mode': mode}
+
+
+def check_constname(case):
+    spec, path, mode = case['spec'], case['path'], case['mode']
+    fails, n = [], 0
+    with G.workdir() as d:
+        m = O.build(spec, path, d)
+        in_ids = [O.node_of(m, O.target_id(spec, t + [None])) for t in case['ins']]
+        out_ids = [O.node_of(m, G.node_id(spec, tuple(k))) for k in case['outs']]
+        if None in in_ids or None in out_ids:
+            return R(labels=['skipped:node-missing'])
+        func = m.compile(in_ids, out_ids) if mode == 'compile' else None
+        for args in case['args']:
+            ovs = [t + [a] for t, a in zip(case['ins'], args)]
+            vals = [O.repo_value(spec, o) for o in ovs]
+            expected = W.evaluate(spec, O.to_cells(spec, ovs), fname_over=O.to_fnames(spec, ovs))
+            if mode == 'compile':
+                res = func(*vals)
+                res = [res] if len(out_ids) == 1 else (list(res) if isinstance(res, (list, tuple)) else [res])
+                if len(res) != len(out_ids):
+                    fails.append(('constname|%s|output-count' % case['plan'], 'compile(%s, %s) returns %d value(s) for %d requested outputs' % (
+                        in_ids, out_ids, len(res), len(out_ids))))
+                    continue
+            else:
+                sol = m.calculate(inputs=dict(zip(in_ids, vals)), **({'outputs': list(out_ids)} if mode == 'calc-outputs' else {}))
+                res = [sol[o] if o in sol else sut.Foreign('no-output') for o in out_ids]
+            n += 1
+            for k, rv in zip(case['outs'], res):
+                got = rv if isinstance(rv, sut.Foreign) else sut.one(rv)
+                exp = expected.get(tuple(k))
+                if not isinstance(exp, W.Unsure) and not X.same(got, 0.0 if isinstance(exp, sut.Blank) else exp, 1e-9):
+                    fails.append(('constname|%s|%s' % (case['plan'], mode), '%s: %s with %r gives %r, reference %r' % (
+                        G.node_id(spec, tuple(k)), mode, args, got, exp)))
+    seen, out = set(), []
+    for s_, d_ in fails:
+        if s_ not in seen:
+            seen.add(s_)
+            out.append((s_, d_))
+    return R(out, nt=True, n=n, labels=['constname:' + case['plan'], 'mode:' + mode, 'path:' + path])
+
+
 def check_sparse(case):
     spec, path = case['spec'], case['path']
     fails, funcs, n = [], {}, 0
@@ -396,6 +466,8 @@ def check_sparse(case):
 def check_case(case):
     if case['k'] == 'sparse':
         return check_sparse(case)
+    if case['k'] == 'constname':
+        return check_constname(case)
     if case['k'] == 'model':
         return check_model(case)
     if case['k'] == 'formula':
@@ -476,4 +548,5 @@ def parts(tier, seed):
         ('hyp', 'formulas', 4000 if q else 60000),
         ('enum', 'sparse-range-histories', [c for c in sparse_cases() if not any(op[0] == 'copy' for op in c['ops'])], 3, False),
         ('enum', 'alias-chains', list(alias_cases()), 2, False),
+        ('enum', 'constant-names', [c for c in constname_cases() if c['mode'] == 'compile'], 2, False),
     ]
